@@ -571,11 +571,14 @@ func analyse(k *vlib.Case, cfg stackCfg, mode concMode, all, builds []ev, writes
 			class   string
 		}
 		// tried in this order; the first that explains the observation names the class
+		// (S last: while Rebuild loops, many operations straddle some Rebuild's
+		// start, so S could explain an A/B history by coincidence; A and B are
+		// pinned down by datastore stamps)
 		relaxations := []relax{
-			{true, false, false, classSwap},
 			{false, true, false, "bloom/negative-while-put-in-flight"},
 			{false, false, true, "bloom/negative-while-delete-in-flight"},
 			{false, true, true, "bloom/negative-while-put-and-delete-in-flight"},
+			{true, false, false, classSwap},
 			{true, true, true, "bloom/swap-window-and-in-flight-write"},
 		}
 		excused := func(r relax, e ev) bool {
